@@ -563,3 +563,364 @@ def correspondence(ctx):
                 "Match.row evaluated by vm_compute (nll exact, parameters 2e-7, code length = value of the model's structure within 1e-6); "
                 "non-trivial = non-empty chain, parameters present, code length given by the formula" % (
                     stats["rows"], len(pairs)))
+
+
+# ------------------------------------------------------------------ search: the property stated directly on codelen_matches
+# Independent oracle: the substitutions are read as FUNCTIONS and composed numerically (mpmath, 40 digits):
+#   u_n = theta, u_{m-1} = s_m(u_m);  p' = u_0;  J = J_{s_1}(u_1) ... J_{s_n}(u_n)  (chain rule),  F' = J^-T F J^-1.
+# Nothing here uses the Coq model or the code's symbolic fold.
+BROAD_STEPS = ["{a%d: sqrt(Abs(a%d))}", "{a%d: a%d**2}", "{a%d: exp(a%d)}", "{a%d: log(Abs(a%d))}", "{a%d: 1/sqrt(Abs(a%d))}",
+               "{a%d: Abs(a%d)**(-1/4)}", "{a%d: Abs(a%d)**(1/3)}", "{a%d: Abs(a%d)}", "{a%d: -a%d}", "{a%d: 1/a%d}", "{a%d: a%d/2}",
+               "{a%d: 2*a%d}", "{a%d: -2*a%d}", "{a%d: -a%d/2}", "{a%d: 4*a%d}", "{a%d: a%d/3}", "{a%d: 3/a%d}"]
+
+
+def parse_step(text, nsym=8):
+    """'{a0: expr, ...}' -> {index: sympy expr}  (independent of simplifier.load_subs)"""
+    import sympy
+    syms = {"a%d" % i: sympy.Symbol("a%d" % i, real=True) for i in range(nsym)}
+    body = text.strip()[1:-1]
+    out = {}
+    for part in body.split(", "):
+        k, v = part.split(": ", 1)
+        out[int(k.strip()[1:])] = sympy.sympify(v, locals=syms)
+    return out, syms
+
+
+def analytic_transfer(chain_texts, theta, Fblock):
+    """-> ('ok', p', diag F') | ('irregular', why) ; theta: list of mpf, Fblock: n x n list of mpf/None"""
+    import mpmath
+    import sympy
+    mpmath.mp.dps = 40
+    n = len(theta)
+    u = [mpmath.mpf(t) for t in theta]
+    J = mpmath.eye(n)
+    for text in reversed(chain_texts):
+        d, syms = parse_step(text)
+        sub = {syms["a%d" % i]: sympy.Float(str(u[i]), 40) if not isinstance(u[i], int) else u[i] for i in range(n)}
+        sub = {syms["a%d" % i]: sympy.Float(mpmath.nstr(u[i], 40), 40) for i in range(n)}
+        Js = mpmath.zeros(n)
+        new = list(u)
+        for i in range(n):
+            if i not in d:
+                Js[i, i] = 1
+                continue
+            e = d[i]
+            free = {str(s) for s in e.free_symbols}
+            if any(int(nm[1:]) >= n for nm in free if re.fullmatch(r"a\d+", nm)) or any(not re.fullmatch(r"a\d+", nm) for nm in free):
+                return ("irregular", "refers to a parameter the function does not have")
+            if e.atoms(sympy.Function) - e.atoms(sympy.exp, sympy.log, sympy.Abs, sympy.sign):
+                return ("irregular", "unknown function")
+            try:
+                val = sympy.N(e.subs(sub), 40)
+                if not val.is_finite or not val.is_real:
+                    return ("irregular", "not finite at theta")
+                new[i] = mpmath.mpf(str(val))
+                for j in range(n):
+                    dv = sympy.N(sympy.diff(e, syms["a%d" % j]).subs(sub), 40)
+                    if not dv.is_finite or not dv.is_real:
+                        return ("irregular", "derivative not finite at theta")
+                    Js[i, j] = mpmath.mpf(str(dv))
+            except Exception as ex:
+                return ("irregular", "evaluation failed: %s" % type(ex).__name__)
+        u = new
+        J = Js * J
+    try:
+        if abs(mpmath.det(J)) < mpmath.mpf(10) ** -30:
+            return ("irregular", "singular Jacobian")
+        Ji = mpmath.inverse(J)
+    except Exception:
+        return ("irregular", "singular Jacobian")
+    if any(x is None for row in Fblock for x in row):
+        return ("nonfinite-F", u)
+    F = mpmath.matrix(Fblock)
+    Fn = Ji.T * F * Ji
+    return ("ok", u, [Fn[i, i] for i in range(n)])
+
+
+def fblock(u, maxp, n):
+    """n x n symmetric block from the flattened upper triangle; None for non-finite entries"""
+    import mpmath
+    M = [[None] * n for _ in range(n)]
+    pos = 0
+    for i in range(maxp):
+        for j in range(i, maxp):
+            if i < n and j < n:
+                v = u["flat"][pos]
+                x = None if isinstance(v, str) else mpmath.mpf(v.numerator) / v.denominator
+                M[i][j] = x
+                M[j][i] = x
+            pos += 1
+    return M
+
+
+def fnum(v):
+    return float(v) if isinstance(v, str) else v.numerator / v.denominator
+
+
+def spec_check(lib, v, toks, chain_texts=None):
+    """C05 stated on one row.  Returns a list of (key, message, observed, expected)."""
+    import mpmath
+    bad = []
+    u = lib["uniques"][v["match"]]
+    maxp, n = lib["maxp"], v["n"]
+    got = [float(t) for t in toks]
+    nll, cl, params = got[0], got[1], got[3:]
+    unll = fnum(u["nll"])
+    texts = chain_texts if chain_texts is not None else [step_text(s) for s in v["chain"]]
+    if int(got[2]) != v["match"]:
+        bad.append(("C05:index", "index column is not the unique's index", got[2], v["match"]))
+    if not math.isfinite(unll):
+        if not math.isnan(cl) or not (nll == unll or (math.isnan(nll) and math.isnan(unll))):
+            bad.append(("C05:nonfinite-unique", "unique's likelihood is %r but the row is nll %r, code length %r" % (unll, nll, cl), [nll, cl], [unll, "nan"]))
+        return bad
+    if n == 0:
+        if cl != 0 or nll != unll or any(params):
+            bad.append(("C05:no-parameters", "a function without parameters must get code length 0 and the unique's likelihood", got, [unll, 0]))
+        return bad
+    if "nan" in texts:
+        if math.isfinite(cl):
+            bad.append(("C05:unrecoverable-finite", "a chain containing nan received the finite code length %r" % cl, cl, "inf"))
+        return bad
+    th = [mpmath.mpf(t.numerator) / t.denominator for t in u["theta"][:n]]
+    tr = analytic_transfer(texts, th, fblock(u, maxp, n))
+    if tr[0] == "irregular":
+        if math.isfinite(cl):
+            bad.append(("C05:irregular-finite", "parameter map not regular at theta (%s) but the code length is %r" % (tr[1], cl), cl, "inf or nan"))
+        return bad
+    if tr[0] == "nonfinite-F":
+        if math.isfinite(cl):
+            bad.append(("C05:nonfinite-curvature", "the unique's Hessian block is not finite but the code length is %r" % cl, cl, "not finite"))
+        return bad
+    _, pp, Fd = tr
+    if any(not (f > 0) for f in Fd):
+        if cl != math.inf:
+            bad.append(("C05:nonpositive-curvature", "a transferred curvature is not positive (%s) but the code length is %r" % (
+                [mpmath.nstr(f, 8) for f in Fd], cl), cl, "inf"))
+        return bad
+    ratio = [p * p * f / 12 for p, f in zip(pp, Fd)]
+    if any(abs(r - 1) < mpmath.mpf("1e-9") for r in ratio) and not (lib.get("exact") and all_dyadic(v["chain"])):
+        return bad          # too close to the threshold for floats; not a statement about the code
+    C = [i for i in range(n) if ratio[i] < 1]
+    key_of = lambda D: "".join("1" if (i in D or pp[i] == 0) else "0" for i in range(n))
+    tbl = lambda D: fnum(v["table"].get(key_of(D), v["dflt"])) if v.get("table") is not None else None
+    rel = lambda a, b: abs(a - b) <= 2e-6 * max(abs(a), abs(b), 1e-300)
+    # the regular case: the unique's likelihood is finite and the map is regular at theta
+    if math.isnan(nll):
+        ok = bool(C) and (v["sympify"] != "ok" or v.get("table") is None or not math.isfinite(tbl(set(C))))
+        if not ok:
+            bad.append(("C05:nan-likelihood", "reported likelihood is nan although the variant can be evaluated "
+                        "(candidates %r)" % C, nll, "a number"))
+        return bad
+    allzero = all(x == 0 for x in params[:n])
+    D = {i for i in range(n) if params[i] == 0 and pp[i] != 0}
+    if allzero and cl == 0 and set(range(n)) - {i for i in range(n) if pp[i] == 0} <= set(C):
+        D = set(range(n))                      # every parameter dropped: k = 0
+    for i in range(n):
+        if i not in D and not rel(params[i], float(pp[i])):
+            bad.append(("C05:parameters", "parameter %d is %r, the transformation of the unique's parameters gives %s" % (
+                i, params[i], mpmath.nstr(pp[i], 12)), params[:n], [float(x) for x in pp]))
+            return bad
+    if any(x != 0 for x in params[n:]):
+        bad.append(("C05:parameters", "padding is not zero", params, "zeros beyond the parameters"))
+    if not D <= set(C):
+        bad.append(("C05:dropped-not-candidate", "dropped parameters %r are not all below one precision step (candidates %r)" % (sorted(D), C),
+                    sorted(D), C))
+        return bad
+    if v.get("table") is not None:
+        if D:
+            own = tbl(D)
+            if not (nll == own):
+                stale = v["sympify"] != "ok"
+                bad.append((KEY_STALE if stale else "C05:likelihood-not-at-reported-parameters",
+                            "reported likelihood %r is not the variant's likelihood at the reported parameters (%r)%s" % (
+                                nll, own, "; the variant could not be evaluated, the value comes from another function" if stale else ""),
+                            nll, own))
+                return bad
+        else:
+            if nll != unll:
+                bad.append(("C05:likelihood-changed", "nothing was dropped but the likelihood %r is not the unique's %r" % (nll, unll), nll, unll))
+                return bad
+        if C and v["sympify"] == "ok" and math.isfinite(tbl(set(C))) and D != set(C):
+            bad.append(("C05:all-at-once", "dropping every candidate %r keeps the likelihood finite but %r were dropped" % (C, sorted(D)),
+                        sorted(D), C))
+            return bad
+    # code length from the transferred curvatures
+    kept = [i for i in range(n) if i not in D]
+    if D or not C:
+        if any(pp[i] == 0 for i in kept):
+            want = None
+        else:
+            want = -len(kept) / 2.0 * math.log(3.0) + sum(float(mpmath.log(Fd[i]) / 2 + mpmath.log(abs(pp[i]))) for i in kept)
+    else:       # nothing dropped although there are candidates: uncertainty = parameter on the candidates
+        if any(pp[i] == 0 for i in range(n)):
+            want = None
+        else:
+            want = -n / 2.0 * math.log(3.0) + sum(float(mpmath.log(12) / 2) if i in C else
+                                                  float(mpmath.log(Fd[i]) / 2 + mpmath.log(abs(pp[i]))) for i in range(n))
+    if want is None:
+        if math.isfinite(cl):
+            bad.append(("C05:zero-parameter-finite", "a kept parameter is exactly 0 but the code length is %r" % cl, cl, "not finite"))
+    elif not (math.isfinite(cl) and (rel(cl, want) or abs(cl - want) <= 2e-6)):
+        key = "C05:match-guard:nonempty-recoverable-chain" if cl == math.inf and texts else "C05:codelen"
+        bad.append((key, "code length %r, the transferred Fisher matrix gives %r (dropped %r, candidates %r)" % (cl, want, sorted(D), C),
+                    cl, want))
+    return bad
+
+
+def gen_broad_lib(R, nvar, ids):
+    """libraries with the broader family of recorded substitutions (roots, exp, log, squares, powers of Abs)"""
+    maxp = 4
+    U = R.randint(2, 5)
+    uniques = []
+    for _ in range(U):
+        n = R.choice([1, 1, 2, 2, 3])
+        th = [R.choice((1, -1)) * Fr(R.randint(4, 40), 16) for _ in range(n)]
+        diag = [Fr(R.choice([1, 3, 12, 40, 100, 1000, 20000]), R.choice([1, 2, 4, 64, 256])) for _ in range(n)]
+        flat = []
+        for i in range(maxp):
+            for j in range(i, maxp):
+                flat.append((diag[i] if i == j else Fr(R.randint(-8, 8), 4)) if i < n and j < n else NAN)
+        uniques.append({"n": n, "nll": Fr(R.randint(-80, 400), 8), "theta": th + [Fr(0)] * (maxp - n), "flat": flat})
+    variants = []
+    for _ in range(nvar):
+        u = R.randrange(U)
+        n = uniques[u]["n"]
+        ln = R.choice([1, 1, 2, 2, 3])
+        texts, nexp = [], 0
+        for _ in range(ln):
+            t = R.choice(BROAD_STEPS)
+            if "exp" in t:
+                nexp += 1
+                if nexp > 2:
+                    t = "{a%d: -a%d}"
+            i = R.randrange(n)
+            texts.append(t % (i, i))
+        if n >= 2 and R.random() < 0.3:
+            a, b = R.sample(range(n), 2)
+            texts.insert(R.randint(0, len(texts)), "{a%d: a%d, a%d: a%d}" % (a, b, b, a))
+        if R.random() < 0.08:
+            texts.insert(R.randint(0, len(texts)), "nan")
+        tbl, dflt = gen_table(R, n)
+        v = {"id": ids[0], "match": u, "n": n, "chain": [], "texts": texts, "table": tbl, "dflt": dflt, "sympify": "ok"}
+        v["fcn"] = "%s + %d" % (BASES[n], v["id"])
+        ids[0] += 1
+        variants.append(v)
+    return {"maxp": maxp, "exact": False, "uniques": uniques, "variants": variants, "P": 1, "broad": True}
+
+
+def impl_lib_any(lib):
+    if not lib.get("broad"):
+        return impl_lib(lib)
+    out = impl_lib({**lib, "variants": [{**v, "chain": []} for v in lib["variants"]]})
+    for o, v in zip(out["variants"], lib["variants"]):
+        o["chain"] = list(v["texts"])
+    return out
+
+
+def stale_corpus_lib():
+    """the replay of the repaired defect 4f4eabe: B cannot be sympified, A was lambdified before it"""
+    th = [Fr(1, 4), Fr(1, 8), Fr(0), Fr(0)]
+    flat = [Fr(12), Fr(0), NAN, NAN, Fr(12), NAN, NAN, NAN, NAN, NAN]
+    un = {"n": 2, "nll": Fr(7), "theta": th, "flat": flat}
+    A = {"id": 9000, "match": 0, "n": 2, "chain": [], "table": {"11": INF, "10": Fr(3), "01": Fr(4)}, "dflt": Fr(99), "sympify": "ok"}
+    B = {"id": 9001, "match": 0, "n": 2, "chain": [[(0, (Fr(1), 1, False)), (1, (Fr(1), 0, False))]],
+         "table": {"11": Fr(1), "10": INF, "01": Fr(5)}, "dflt": Fr(99), "sympify": "nameerror"}
+    for v in (A, B):
+        v["fcn"] = "%s + %d" % (BASES[2], v["id"])
+    return {"maxp": 4, "exact": True, "uniques": [un, dict(un)], "variants": [A, B], "P": 1}
+
+
+def guard_corpus_lib():
+    """the replay of the repaired defect e814972: '-a0 + x' with {a0: -a0}, theta = 2, F = 4"""
+    un = {"n": 1, "nll": Fr(10), "theta": [Fr(2), Fr(0), Fr(0), Fr(0)], "flat": [Fr(4)] + [NAN] * 9}
+    vs = []
+    for k, ch in enumerate([[[(0, (Fr(-1), 0, False))]], [[(0, (Fr(1), 0, True))]], []]):
+        v = {"id": 9100 + k, "match": 0, "n": 1, "chain": ch, "table": {"1": INF}, "dflt": INF, "sympify": "ok"}
+        v["fcn"] = "%s + %d" % (BASES[1], v["id"])
+        vs.append(v)
+    return {"maxp": 4, "exact": True, "uniques": [un, dict(un)], "variants": vs, "P": 1}
+
+
+def search(ctx):
+    rep = ctx.report
+    done = list(getattr(ctx, "c05", []))                 # every library of the correspondence (1-3 ranks)
+    R = esrv.rng(ctx.seed, "C05/search")
+    ids = [20000]
+    extra = [stale_corpus_lib(), guard_corpus_lib()]
+    nb = 10 if ctx.quick else 120
+    extra += [gen_broad_lib(R, R.randint(10, 20), ids) for _ in range(nb)]
+    extra += [gen_lib(R, R.randint(8, 20), 1, ids) for _ in range(4 if ctx.quick else 60)]
+    replay = getattr(ctx, "replay", None)
+    try:
+        wd = esrv.mkscratch("c05s")
+        lj = os.path.join(wd, "libs.json")
+        outs = []
+        from concurrent.futures import ThreadPoolExecutor
+        chunks = [extra[a:a + 6] for a in range(0, len(extra), 6)]
+
+        def run_chunk(ci_ch):
+            ci, ch = ci_ch
+            p = os.path.join(wd, "libs%d.json" % ci)
+            w = os.path.join(wd, "work%d" % ci)
+            os.makedirs(w)
+            with open(p, "w") as f:
+                json.dump([impl_lib_any(l) for l in ch], f)
+            rc, out, err = esrv.run_py(ctx.scratch, IMPL, ["run", p, w], timeout=3000)
+            if rc != 0 or MARK not in out:
+                raise RuntimeError("c05_impl failed: %s" % err[-1200:])
+            return json.loads(out.split(MARK, 1)[1])
+        with ThreadPoolExecutor(max_workers=6) as ex:
+            for part in ex.map(run_chunk, list(enumerate(chunks))):
+                outs += part
+        done += list(zip(extra, outs))
+        shutil.rmtree(wd, ignore_errors=True)
+    except Exception as e:
+        rep.fail("broken-correspondence", "search driver failed: %s" % str(e)[-800:], "C05:search-driver", theorem="search")
+    reported = set()
+    counts = {}
+    nrows = nbroad = 0
+    for lib, res in done:
+        if res.get("exc") or res.get("rows") is None:
+            key = KEY_STALE if "eq_numpy" in str(res.get("exc")) else "C05:main-raised"
+            counts[key] = counts.get(key, 0) + 1
+            if key not in reported:
+                reported.add(key)
+                rep.fail("failing-input", "match.main raised %s: no codelen_matches file is written" % res.get("exc"), key,
+                         input={"library": impl_lib_any(lib)}, observed=res.get("exc"), expected="a row per function")
+            continue
+        for v, toks in zip(lib["variants"], res["rows"]):
+            nrows += 1
+            nbroad += bool(lib.get("broad"))
+            rep.case(key=None, nontrivial=False)
+            try:
+                out = spec_check(lib, v, toks, chain_texts=v.get("texts"))
+            except Exception as e:
+                out = [("C05:oracle-error", "the independent oracle failed on this row: %s: %s" % (type(e).__name__, e), None, None)]
+            for key, msg, obs, exp in out:
+                counts[key] = counts.get(key, 0) + 1
+                if key in reported:
+                    continue
+                reported.add(key)
+                u = lib["uniques"][v["match"]]
+                kind = "broken-correspondence" if key == "C05:oracle-error" else "failing-input"
+                rep.fail(kind, msg, key,
+                         input={"function": v["fcn"], "unique_index": v["match"], "chain": v.get("texts") or [step_text(s) for s in v["chain"]],
+                                "theta_u": [str(t) for t in u["theta"]], "F_u_flat_upper": [str(f) for f in u["flat"]], "nll_u": str(u["nll"]),
+                                "likelihood_by_zero_pattern": {k: str(x) for k, x in v["table"].items()}, "default": str(v["dflt"]),
+                                "run_sympify": v["sympify"], "ranks": lib["P"], "library": impl_lib_any(lib)},
+                         observed={"reported_row": toks, "detail": obs}, expected=exp, theorem="C05 stated on codelen_matches")
+    rep.extra["search_rows"] = nrows
+    rep.extra["search_rows_broader_family"] = nbroad
+    rep.extra["search_violation_counts"] = counts
+    real_search(ctx)
+
+
+def real_search(ctx):
+    pass
+
+
+TRUSTED = []
+ASSUMPTIONS = []
+LEVEL_TEXT = ""
+LEVEL_NOTE = ""
+TECHNIQUE = ""
